@@ -615,8 +615,12 @@ def propagate_new_constants(trees: List[ast.AST], pinned_globals) -> bool:
         for st in t.body:
             if isinstance(st, ast.Assign) and len(st.targets) == 1 and isinstance(st.targets[0], ast.Name):
                 stores[st.targets[0].id] = stores.get(st.targets[0].id, 0) + 1
-                if isinstance(st.value, ast.Constant) and isinstance(st.value.value, (int, float, str)) and not isinstance(st.value.value, bool):
-                    consts[st.targets[0].id] = st.value
+                v = st.value
+                inner = v.args[0] if isinstance(v, ast.Call) and isinstance(v.func, ast.Name) and v.func.id in ("frozenset", "set", "tuple", "list") and len(v.args) == 1 and not v.keywords else v
+                if isinstance(v, ast.Constant) and isinstance(v.value, (int, float, str)) and not isinstance(v.value, bool):
+                    consts[st.targets[0].id] = v
+                elif isinstance(inner, (ast.Tuple, ast.List, ast.Set)) and inner.elts and all(isinstance(e, ast.Constant) and isinstance(e.value, (int, float, str)) for e in inner.elts):
+                    consts[st.targets[0].id] = inner  # a constant collection used for membership tests
         consts = {k: v for k, v in consts.items() if stores.get(k) == 1 and k not in pinned_globals}
         # never assigned elsewhere (global statements / attribute stores are not tracked: constants are ALL_CAPS or _private by convention)
         consts = {k: v for k, v in consts.items() if k.upper() == k or k.startswith("_")}
